@@ -430,6 +430,23 @@ for fn, real, kw in fcontracts:
     kw.setdefault('tier', 'thorough' if fn in THOROUGH else 'quick')
     P.contract(fn, real, kind='F', **kw)
 
+# The same identities under the SIMD configuration (aligned vec4 -> glm/simd/geometric.h kernels; C03 re-enforces every contract of this module
+# at three ISA levels, here the vec4/float real-arithmetic contracts are kept in this property's own per-change tier at SSE2 and AVX2+FMA, whose
+# dot kernels differ: mul + shuffles/adds, and dpps)
+import copy as _copy, re as _re
+for _isa, _fl in (('sse2', ['-msse2']), ('avx2fma', ['-mavx2', '-mfma'])):
+    _sb = P.build(d, 'flat', defines=['GLM_ENABLE_EXPERIMENTAL', 'GLM_FORCE_INTRINSICS', 'GLM_FORCE_DEFAULT_ALIGNED_GENTYPES'], flags=_fl, tag='c12_simd_' + _isa)
+    _sb.only = set()
+    for _c in list(P.contracts):
+        if _c.build == flat.tag and _c.kind == 'R' and _c.tier == 'quick' and _re.search(r'_v4_f32$', _c.fn) and _c.sig is None and not _re.search(r'faceforward|refract', _c.fn):  # those two: bit-level sign tests, compared bitwise in C03
+            _c2 = _copy.copy(_c)
+            _c2.build = _sb.tag
+            _c2.real = '[GLM_FORCE_INTRINSICS, aligned, %s] %s' % (_isa, _c.real)
+            _sb.only.add(_c.fn)
+            for _u in _c.uses:
+                _sb.only.add(_u)
+            P.contracts.append(_c2)
+
 P.level_text = ('over the reals (machine arithmetic treated as mathematical): the real-valued function computed by the code clang '
                 'extracts from /repo satisfies the Euclidean identities of the property statement for all real inputs in the stated '
                 'domain; plus bit-exact CBMC contracts (all float/double bit patterns) for the branch selection of faceforward, the '
